@@ -136,6 +136,24 @@ each integration using the step of the axis it runs along -/
 def brmsSqOfR (lt : K → K → Bool) (absf : K → K) (m n : Nat) (flow fhigh : K) (r P : Nat → Nat → K) : K :=
   brmsSq lt m n (stepAxis0 absf m n r) (stepAxis1 absf m n r) flow fhigh r P
 
+/-! ## the 1-D form of `bandlimited_rms` (`r`, `psd` one-dimensional: the `r.ndim != 2` branch) -/
+
+/-- the band mask on a 1-D axis (the 2-D mask read on a single column) -/
+def bandMask1 (lt : K → K → Bool) (flow fhigh : K) (r P : Nat → K) (i : Nat) : K :=
+  bandMask lt flow fhigh (fun a _ => r a) (fun a _ => P a) i 0
+
+/-- square of the 1-D `bandlimited_rms` given the integration step -/
+def brms1Sq (lt : K → K → Bool) (n : Nat) (d flow fhigh : K) (r P : Nat → K) : K :=
+  trapz n d (bandMask1 lt flow fhigh r P)
+
+/-- step of a 1-D axis as the code measures it: `|r[c-1] - r[c]|`, `c = n // 2` -/
+def stepAxis1D (absf : K → K) (n : Nat) (r : Nat → K) : K :=
+  absf (r (pyPrev n (n / 2)) - r (n / 2))
+
+/-- square of `bandlimited_rms(r, psd, flow=, fhigh=)` for 1-D `r`, `psd`, the step measured from `r` -/
+def brms1SqOfR (lt : K → K → Bool) (absf : K → K) (n : Nat) (flow fhigh : K) (r P : Nat → K) : K :=
+  brms1Sq lt n (stepAxis1D absf n r) flow fhigh r P
+
 /-! ## RMS rescale of a synthesised surface -/
 
 /-- `z *= rms / z_rms` -/
